@@ -70,6 +70,26 @@ def run_queue_impl(cfg, adds, horizon):
     return [[t, [SETTAG, [[k, [SETTAG, v]] for k, v in a.items()]]] for t, a in captured]
 
 
+def oracle_queue(cfg, adds, obs):
+    """C12_lower / C12_upper / C12_no_dup read off the real queue: a record never leaves before the jitter of some request that asked for
+    it has elapsed, every requested record leaves by arrival + aggregation + additional (arrival = handling time), no duplicates in a batch"""
+    additional, aggregation = cfg
+    for t, batch in obs:
+        keys = [kv[0] for kv in batch[1]]
+        if len(set(keys)) != len(keys):
+            return f"batch at {t} lists a record twice"
+        for k in keys:
+            if not any(k in a and now + r + additional <= t for now, tnow, r, a in adds):
+                return f"record {k} multicast at {t}, before the random delay of every request for it had elapsed"
+    for now, tnow, r, a in adds:
+        if now != tnow:
+            continue
+        for k in a:
+            if not any(k in [kv[0] for kv in batch[1]] and tnow <= t <= now + aggregation + additional for t, batch in obs):
+                return f"record {k} requested at {now} not multicast by {now + aggregation + additional}"
+    return None
+
+
 def coq_schedule(cfg, adds, horizon):
     def ca(ans):
         return clist(f"({cz(k)}, {common.czlist(v)})" for k, v in ans.items())
@@ -242,10 +262,14 @@ def run(ctx):
         if s:
             sched.append(s)
     coq_cases = []
+    qfails = []
     for cfg, adds in sched:
         horizon = adds[-1][1] + 3000
         obs = run_queue_impl(cfg, adds, horizon)
         coq_cases.append((coq_schedule(cfg, adds, horizon), obs, (cfg, adds)))
+        why = oracle_queue(cfg, adds, obs)
+        if why:
+            qfails.append(((cfg, adds), why))
         ctx.count(('q', repr((cfg, adds))), nontrivial=len(adds) > 1)
         ctx.hist(f"queue:{cfg[1]}:sends={min(len(obs), 4)}")
     # (2)
@@ -266,6 +290,8 @@ def run(ctx):
                        "times, tie-free; compared: time and content of every emitted batch. (2) full-stack scenarios: 1-5 QM queries (PTR, PTR with known answer, "
                        "SRV, A, two-question, TC) from two sources at grid gaps against a host with two services, loop-back on; oracle: windows 20..500 ms, "
                        "immediate types, one-second protection (>= sighting + 1 s, <= query + 1.2 s), no duplicate in a batch, TC hold. distinct = distinct schedules")
+    for sc, why in qfails[:2]:
+        ctx.violation({'kind': 'oracle', 'why': why, 'queue_schedule': jsonable(sc), 'broken': None if ok else ctx.build_msg})
     for evs, why in fails[:3]:
         ctx.violation({'kind': 'oracle', 'why': why, 'scenario': jsonable(evs), 'broken': None if ok else ctx.build_msg},
                       tags=scenario_tags(evs, why))
